@@ -1,7 +1,7 @@
 (** * Judging a case: does the model agree with what the implementation returned, and does the
     implementation's output satisfy the property checkers. Evaluated by [vm_compute] on [NumF]. *)
 From Coq Require Import ZArith Bool List String Floats.
-From RDM Require Import Base.Num Base.NumF Base.Util Model.Data Model.Rank Model.Pipeline Check.Mk Check.Close Check.Finite Check.C04 Check.C01 Check.C03 Check.C05 Check.C11 Check.C12 Check.C13 Check.C06 Check.C08 Check.C13b.
+From RDM Require Import Base.Num Base.NumF Base.Util Model.Data Model.Rank Model.Pipeline Model.Listeners Model.Biases Check.Stage Check.Mk Check.Close Check.Finite Check.C04 Check.C01 Check.C03 Check.C05 Check.C11 Check.C12 Check.C13 Check.C06 Check.C08 Check.C13b.
 Import ListNotations.
 
 Definition obs_echo := (string * float * bool)%type.
@@ -101,7 +101,8 @@ Definition values_agree (m : res (@response NumF)) (r : list (@entry NumF)) : bo
   end.
 
 (* columns: 0 agree | 1 C01 | 2 C03 (0 ok, 1 violated, 2 = known unweighted weighted-sum) | 3 C04
-            | 4 C05 | 5 C11 | 6 C12 | 7 C13 | 8 C01 structure correspondence | 9 C03 values correspondence | 10 C06 | 11 C08 | 12 C13 order within a level *)
+            | 4 C05 | 5 C11 | 6 C12 | 7 C13 | 8 C01 structure correspondence | 9 C03 values correspondence | 10 C06 | 11 C08 | 12 C13 order within a level
+            | 13 the state the method is evaluated on is coherent: every alternative has a value and the method parameters an entry for every criterion *)
 Definition judge_all (c : xcase) : list nat :=
   let md := decide (x_env c) (x_req c) in
   let ag := agree md (x_obs c) in
@@ -121,9 +122,10 @@ Definition judge_all (c : xcase) : list nat :=
         if util then b2n (values_agree md r) else 0;
         if is_method c m_electre then b2n (C06_ok st r) else 0;
         c08;
-        if is_method c m_satisfaction then b2n (C13_order_ok (x_env c) st r) else 0 ]
-  | ObsOk r _, None => [ ag; b2n (C01_ok (expected_ids (x_req c)) r); 0; 0; 0; 0; 0; 0; b2n (C01_struct c r ag); 0; 0; c08; 0 ]
-  | ObsErr, _ => [ ag; 0; 0; 0; 0; 0; 0; 0; 0; 0; 0; 0; 0 ]
+        if is_method c m_satisfaction then b2n (C13_order_ok (x_env c) st r) else 0;
+        b2n (inv st) ]
+  | ObsOk r _, None => [ ag; b2n (C01_ok (expected_ids (x_req c)) r); 0; 0; 0; 0; 0; 0; b2n (C01_struct c r ag); 0; 0; c08; 0; 0 ]
+  | ObsErr, _ => [ ag; 0; 0; 0; 0; 0; 0; 0; 0; 0; 0; 0; 0; 0 ]
   end.
 
 (** ** one bias application (a stage of the trace) *)
